@@ -65,6 +65,16 @@ pub enum ArgOp {
     Pos(u64),
     TagOther(String),
     FilterValue(String),
+    /// a string of 2^log2 + delta letters followed by `tail` (0 nothing, 1 LF + "kill", 2 LF, 3 NUL,
+    /// 4 a blank and a quote); kept symbolic so that replay files stay small
+    Giant { log2: u8, delta: i8, tail: u8 },
+}
+
+fn giant_string(log2: u8, delta: i8, tail: u8) -> String {
+    let n = ((1i64 << log2.min(23)) + delta as i64).max(0) as usize;
+    let mut s = "y".repeat(n);
+    s.push_str(["", "\nkill", "\n", "\0", " \"x"][tail as usize % 5]);
+    s
 }
 
 impl ArgOp {
@@ -85,6 +95,7 @@ impl ArgOp {
             ArgOp::Pos(v) => f(&SongPosition(*v as usize)),
             ArgOp::TagOther(s) => f(&Tag::Other(s.clone().into_boxed_str())),
             ArgOp::FilterValue(s) => f(&Filter::new(Tag::Artist, Operator::Equal, s.clone())),
+            ArgOp::Giant { log2, delta, tail } => f(&giant_string(*log2, *delta, *tail).as_str()),
         }
     }
 }
@@ -450,6 +461,33 @@ fn strategy(_tier: Tier) -> BoxedStrategy<Case> {
         .boxed()
 }
 
+/// One command whose arguments include one or two very long strings (sizes on a logarithmic scale up
+/// to 4 MiB, so that cumulative lengths cross every power of two up to 8 MiB), with and without a
+/// line feed / NUL at their end.
+fn giant_strategy(tier: Tier) -> BoxedStrategy<Case> {
+    let top = tier.pick(21u8, 22u8);
+    let giant = move || (12..=top, -2..=2i8, prop_oneof![2 => Just(0u8), 3 => Just(1), 1 => Just(2), 1 => Just(3), 1 => Just(4)]).prop_map(|(log2, delta, tail)| ArgOp::Giant { log2, delta, tail });
+    let big = move || (19..=top, -2..=2i8, prop_oneof![1 => Just(0u8), 2 => Just(1)]).prop_map(|(log2, delta, tail)| ArgOp::Giant { log2, delta, tail });
+    (
+        prop::collection::vec(arg_op(), 0..3usize),
+        prop_oneof![
+            2 => giant().prop_map(|g| vec![g]),
+            2 => (giant(), giant()).prop_map(|(a, b)| vec![a, b]),
+            3 => (big(), big()).prop_map(|(a, b)| vec![a, b]),
+            1 => (big(), big(), big()).prop_map(|(a, b, c)| vec![a, b, c]),
+        ],
+        prop::collection::vec(arg_op(), 0..3usize),
+        0..4u8,
+    )
+        .prop_map(|(before, giants, after, assemble)| {
+            let mut ops = before;
+            ops.extend(giants);
+            ops.extend(after);
+            Case { cmds: vec![CmdSpec { name: "sendmessage".into(), ops }, CmdSpec { name: "ping".into(), ops: vec![] }], assemble }
+        })
+        .boxed()
+}
+
 pub fn property(_tier: Tier) -> Property {
     Property {
         id: "C07",
@@ -459,6 +497,12 @@ pub fn property(_tier: Tier) -> Property {
             rule: "proptest: 1-6 commands, each an arbitrary (near-miss biased) name and 0-10 add_argument calls over every Argument type incl. a raw-bytes renderer, Tag::Other and Filter values with LF at first/middle/last position; then sent alone and as a CommandList assembled by add/command/extend; non-trivial = a command with >=1 rejected and >=1 accepted argument, or a name within edit distance 2 of a list keyword; distinct by serialised case",
             cases: (100_000, 20_000_000),
             strategy: Box::new(strategy),
+            check: Box::new(check),
+        }), Box::new(RandomPart {
+            name: "giant_arguments",
+            rule: "proptest: one command with 0-2 ordinary add_argument calls, then 1-3 arguments of 2^k + d letters (k = 12..21, thorough 22; often two or three of 512 KiB - 4 MiB in a row so that the line grows past 1, 2, 4 and 8 MiB), each optionally ending in LF+text / LF / NUL / blank+quote, then 0-2 ordinary ones; same judge as 'histories' (acceptance only without LF, exact rollback after a rejection, one line on the wire, list framing). non-trivial as there",
+            cases: (400, 20_000),
+            strategy: Box::new(giant_strategy),
             check: Box::new(check),
         })],
         assumptions: vec![
